@@ -58,6 +58,8 @@ def translate(ctx):
                                                           'failed_closed': [f'{a}: {b}' for a, b in unavailable]}
     for label, why in unavailable:
         ctx.notes.append(f'translator failed closed for {label} ({why}); that function rests on correspondence alone in this run')
+        ctx.obligations += 1
+        ctx.problem('proof', 'gen_functionals', None, f'the source of {label} no longer has the form the model mirrors (translator failed closed: {why})')
     if n == 0:
         return
     ctx.obligations += n
